@@ -1,0 +1,36 @@
+//go:build verif
+
+// Contracts for the verification machinery under /verif (contract-based deductive
+// verification). This file is comment-only, is excluded from every normal build by the
+// "verif" build tag, and declares nothing. See /verif/DESIGN.md §4.
+
+package patch
+
+// C18: move is not implemented, whatever the arguments
+//@ func (e *Expression) Move(resource, sourceIndex, destIndex, options) (err)
+//@   ensures err == ErrNotImplemented
+//@   assigns nothing
+
+// a nil interface, or a nil pointer inside a non-nil interface (an invalid reflection view)
+//@ func isNilMessage(msg) (res)
+//@   ensures msg == nil ==> res
+//@   ensures res == (msg == nil || !pbValid(pbReflect(msg)))
+//@   assigns nothing
+
+// C18/C01: a nil (or typed-nil) resource or value is rejected with ErrInvalidInput
+//@ func (e *Expression) Insert(res, value, index, options) (err)
+//@   ensures res == nil || value == nil ==> is(err, ErrInvalidInput)
+//@   ensures res != nil && value != nil && (!pbValid(pbReflect(res)) || !pbValid(pbReflect(value))) ==> is(err, ErrInvalidInput)
+//@   assigns *
+//@ func (e *Expression) Replace(resource, value, options) (err)
+//@   ensures resource == nil || value == nil ==> is(err, ErrInvalidInput)
+//@   ensures resource != nil && value != nil && (!pbValid(pbReflect(resource)) || !pbValid(pbReflect(value))) ==> is(err, ErrInvalidInput)
+//@   assigns *
+//@ func (e *Expression) Delete(res, options) (err)
+//@   ensures res == nil ==> is(err, ErrInvalidInput)
+//@   ensures res != nil && !pbValid(pbReflect(res)) ==> is(err, ErrInvalidInput)
+//@   assigns *
+//@ func (e *Expression) Add(res, name, value, options) (err)
+//@   ensures res == nil || value == nil ==> err != nil
+//@   ensures res != nil && value != nil && (!pbValid(pbReflect(res)) || !pbValid(pbReflect(value))) ==> err != nil
+//@   assigns *
